@@ -18,14 +18,16 @@ static void init_tokens(const std::string& set) {
     T("<!--c-->"); T("<!--c--d-->"); T("<?pi d?>"); T("<?xml d?>"); T("<?XML d?>");
     T("<?xml version='1.0'?>"); T("<?xml version='1.0' encoding='UTF-8' standalone='yes'?>"); T("<?xml version='1.0' encoding='bogus-enc'?>");
     T("<?xml standalone='yes' version='1.0'?>");
-    T("<![CDATA[c<&]]>"); T("]]>"); T("<"); T("&"); T(">"); T(" "); T("\n"); T("\r\n"); T("\x01");
+    T("<![CDATA[c<&]]>"); T("]]>"); T("]"); T("<"); T("&"); T(">"); T(" "); T("\n"); T("\r\n"); T("\x01");
     T("\xC3\xA9"); T("\xC3"); T("\xFF"); T("\xF0\x90\x80\x80"); T("\xED\xA0\x80");
     T("<!DOCTYPE a>", true); T("<!DOCTYPE a [<!ENTITY e 'v<b/>'><!ATTLIST a d CDATA 'dv'>]>", true); T("&e;");
     T("<!DOCTYPE a [<!ENTITY e '&f;'><!ENTITY f '&e;'>]>", true);
     if (set == "small") { /* subset for deeper k */
-        std::vector<int> keep = {0, 1, 4, 5, 6, 8, 10, 15, 16, 20, 24, 25, 27, 28, 30, 34, 35, 36, 37, 39, 40, 43, 44, 49, 50, 51};
+        static const char* keepTok[] = {"<a>", "</a>", "<a/>", "<p:a xmlns:p='u'>", "</p:a>", "<a x='1'>", "<a x='1' x='2'/>", "x", "&lt;", "&#0;", "&u;", "<!--c-->", "<?pi d?>", "<?xml d?>",
+                                        "<?xml version='1.0'?>", "<![CDATA[c<&]]>", "]]>", "]", "<", "&", " ", "\n", "\xC3\xA9", "\xC3", "<!DOCTYPE a [<!ENTITY e 'v<b/>'><!ATTLIST a d CDATA 'dv'>]>", "&e;",
+                                        "<!DOCTYPE a [<!ENTITY e '&f;'><!ENTITY f '&e;'>]>"};
         std::vector<std::string> t2; std::vector<bool> d2;
-        for (int i : keep) { t2.push_back(TOK[i]); d2.push_back(TOK_DOCTYPE[i]); }
+        for (const char* k : keepTok) for (size_t i = 0; i < TOK.size(); i++) if (TOK[i] == k) { t2.push_back(TOK[i]); d2.push_back(TOK_DOCTYPE[i]); }
         TOK = t2; TOK_DOCTYPE = d2;
     }
 }
@@ -247,7 +249,7 @@ static void init_s4() {
     ITEMS = {"t", " ", "\n", "\r\n", "\r", "\t", "&e;", "&m;", "&n;", "&cr;", "&lt2;", "&x;", "&#13;", "&#10;&#9;", "&#x20AC;", "&#x10000;", "\xC3\xA9",
              "<![CDATA[d]]>", "<![CDATA[]]>", "<![CDATA[<&]]]]>", "<!--k-->", "<?q r?>", "<?q?>", "<c/>", "<c d='y'/>", "<c d='z'/>", "<i>v</i>",
              "<c a=' &e; &#13;&#10; \r\n\t'/>", "<c a='&m;'/>", "<c a=\"'&quot;&lt;\"/>", "<c  a = 'v' \n/>", "<r:c xmlns:r='u' r:a='1'/>", "<c i='id1'/>",
-             "&u;", "]]", ">", "<i>\n<c/>\n</i>"};
+             "&u;", "]]", ">", "<i>\n<c/>\n</i>", "]", "]]>"};
 }
 static int g_s4_attrs = 4;
 static DocCase s4_case(uint64_t idx) {
@@ -295,7 +297,8 @@ static void init_s3() {
     }
     for (int n : {31, 32, 33, 34, 64, 65, 100}) good("nest-" + std::to_string(n), nest(n));
     // character data and references
-    bad("cdata-end-in-text", "<a>]]></a>"); good("brackets-in-text", "<a>]] ></a>"); bad("bare-amp", "<a>&</a>"); bad("bare-lt", "<a><</a>"); good("bare-gt", "<a>></a>");
+    bad("cdata-end-in-text", "<a>]]></a>"); bad("cdata-end-3-brackets", "<a>]]]></a>"); bad("cdata-end-4-brackets", "<a>]]]]></a>"); bad("cdata-end-5-brackets", "<a>x]]]]]>y</a>");
+    bad("cdata-end-after-bracket-text", "<a>]x]]]></a>"); good("brackets-then-entity-gt", "<a>]]]&gt;</a>"); good("cdata-ending-in-brackets", "<a><![CDATA[]]]]]></a>"); good("brackets-in-text", "<a>]] ></a>"); bad("bare-amp", "<a>&</a>"); bad("bare-lt", "<a><</a>"); good("bare-gt", "<a>></a>");
     bad("ref-no-semicolon", "<a>&lt</a>"); bad("ref-undeclared", "<a>&u;</a>"); bad("charref-zero", "<a>&#0;</a>"); bad("charref-surrogate", "<a>&#xD800;</a>");
     bad("charref-ffff", "<a>&#xFFFF;</a>"); bad("charref-fffe", "<a>&#xFFFE;</a>"); bad("charref-too-big", "<a>&#x110000;</a>"); bad("charref-empty", "<a>&#;</a>"); bad("charref-hex-upper-x", "<a>&#X41;</a>");
     bad("charref-c0", "<a>&#1;</a>"); good("charref-tab-lf-cr", "<a>&#9;&#10;&#13;</a>"); good("charref-max", "<a>&#x10FFFF;</a>"); good("charref-fffd", "<a>&#xFFFD;</a>"); good("charref-leading-zeros", "<a>&#0000065;&#x00041;</a>");
